@@ -1,5 +1,6 @@
 """C12 — bytes never written read as zero; old data is never exposed."""
 import crashlib
+import dclib
 import fscklib
 import seqlib
 import vlib
@@ -30,6 +31,8 @@ def run(ctx):
         rl = fscklib.run_images(ctx, ok_drv, "reclaim", ["reclaim", "-seed", str(ctx.seed)] + (["-hists", "6", "-rounds", "2"] if ctx.tier == "thorough" else ["-hists", "2", "-rounds", "1"]), set(), False)
         fscklib.oracle_lines(ctx, rl, "C12", "harness reclaim -seed %d (full-disk scenarios: a never-written block read after the index block of a refused WRITE was reused)" % ctx.seed)
         ctx.cov["full_disk_histories"] = len([l for l in rl or [] if l.startswith("# HIST")])
+        # a freed block becomes available to others only with the commit that zeroes it (allocation discipline M8b, every step of interleaved transactions)
+        dclib.run_atxn(ctx, ok_drv)
         # after a crash: a never-written file on the RECOVERED server reads as zeros (its hole-filling READ takes blocks from an allocator
         # that recovery rebuilt: blocks of files committed but not yet installed must not be among them)
         crashlib.run_crash(ctx, ok_drv, "data", ["-workloads", "4", "-ops", "40", "-images", "300"] if ctx.tier == "thorough"
